@@ -384,7 +384,10 @@ func (p *parser) substituteAmpersandsInCompoundSelector(
 			last := len(replacement.Selectors) - 1
 			results = append(results, replacement.Selectors[:last]...)
 			single = replacement.Selectors[last]
-			if strip == stripLeadingCombinator {
+			if strip == stripLeadingCombinator && last == 0 {
+				// Only the combinator of the first compound selector is a leading
+				// combinator. The other ones are part of the replacement:
+				// ".foo ~ .bar { :is(&) {} }" => ":is(.foo ~ .bar) {}"
 				single.Combinator = css_ast.Combinator{}
 			}
 			sel.Combinator = single.Combinator
